@@ -242,4 +242,103 @@ def MRacy (cfg : Cfg) (nobs : Nat) (s : MState) : Prop :=
 instance (cfg : Cfg) (nobs : Nat) (s : MState) : Decidable (MRacy cfg nobs s) := by
   unfold MRacy; infer_instance
 
+/-! ## happens-before layer (release / acquire and mutex edges)
+
+The steps above are sequentially consistent and say nothing about the *object* the pointer
+designates: its constructor writes it with plain stores, every caller of `instance()` reads it
+with plain loads.  Whether those accesses race is decided by happens-before, and happens-before
+between different threads only comes from (1) an unlock of the mutex and a later lock of it,
+(2) a **release** store into an atomic cell and an **acquire** load that reads the stored value.
+This layer tracks, along every interleaving, exactly the edges the configuration justifies — the
+standard vector-clock construction of a race detector, restricted to the one event that matters
+(`SInv`: there is at most one construction). -/
+
+/-- ghost state: `knows t` = the construction of the object happens-before the next event of
+thread `t`; `mutexKnows` / `cellKnows` = what the last unlock / the store into the fast-path cell
+published; `racyUse` = the threads that were handed the object without the construction
+happening-before (their first use of it is a data race with the constructor) -/
+structure HB where
+  knows : Nat → Bool := fun _ => false
+  mutexKnows : Bool := false
+  cellKnows : Bool := false
+  racyUse : List Nat := []
+
+def HB.init : HB := {}
+
+/-- the ghost update that goes with `sstep cfg n s t` (computed from the state *before* the step) -/
+def hbStep (cfg : Cfg) (n : Nat) (s : SState) (h : HB) (t : Nat) : HB :=
+  if t < n then
+    match s.pc t with
+    | .read1 =>
+      -- an acquire load of an atomic that reads the stored pointer synchronises with a release store
+      if s.ptr.isSome && cfg.ptrAtomic && cfg.loadAcq then { h with knows := upd h.knows t (h.knows t || h.cellKnows) } else h
+    | .lock => if s.lock = none then { h with knows := upd h.knows t (h.knows t || h.mutexKnows) } else h
+    | .read2 => h   -- under the mutex; the load itself is relaxed: no edge from the cell
+    | .construct => { h with knows := upd h.knows t true }
+    | .write => { h with cellKnows := cfg.ptrAtomic && cfg.storeRel && h.knows t }
+    | .unlock => { h with mutexKnows := h.knows t }
+    | .read3 => if h.knows t then h else { h with racyUse := t :: h.racyUse }
+    | .done => h
+  else h
+
+def hrunFrom (cfg : Cfg) (n : Nat) : SState → HB → List Nat → SState × HB
+  | s, h, [] => (s, h)
+  | s, h, t :: rest => hrunFrom cfg n (sstep cfg n s t) (hbStep cfg n s h t) rest
+
+def hrun (cfg : Cfg) (n : Nat) (sched : List Nat) : SState × HB := hrunFrom cfg n SState.init HB.init sched
+
+/-- ManagedThread: for every sample (same order as `MState.samples`) whether the end of the user
+function happens-before the observer's next event: the observer's acquire load read the value
+the child's release store after the function wrote, or the observer knows of the `join()`. -/
+def mhbStep (cfg : Cfg) (nobs : Nat) (s : MState) (l : List (Sample × Bool)) (t : Nat) : List (Sample × Bool) :=
+  match t with
+  | 0 => l
+  | 1 => l
+  | t + 2 =>
+    if t < nobs ∧ s.isLive = true then
+      l ++ [(⟨t + 2, s.win, s.ppc == .joined, s.flag⟩,
+             (s.ppc == .joined) || (cfg.flagAtomic && cfg.flagOrders && s.cpc == .done && s.flag == some false))]
+    else l
+
+def mhrunFrom (cfg : Cfg) (nobs : Nat) : MState → List (Sample × Bool) → List Nat → MState × List (Sample × Bool)
+  | s, l, [] => (s, l)
+  | s, l, t :: rest => mhrunFrom cfg nobs (mstep cfg nobs s t) (mhbStep cfg nobs s l t) rest
+
+def mhrun (cfg : Cfg) (nobs : Nat) (sched : List Nat) : MState × List (Sample × Bool) :=
+  mhrunFrom cfg nobs MState.init [] sched
+
+/-! ## a shape the source does *not* have: `store(true)` by the creating thread
+
+Recorded for the seeded change `seeded/C20-2`: the store of `true` is moved out of the thread's
+lambda into the body of the `ManagedThread` constructor ("active as soon as created").  The
+constructor body runs after the `std::thread` base class has started the thread, so `true` is
+written by the creator and `false` by the managed thread, unordered.  State = the ordinary state
+plus "the creator's store is still pending". -/
+
+def mstepCreator (nobs : Nat) (s : MState × Bool) (t : Nat) : MState × Bool :=
+  match t with
+  | 0 =>
+    match s.1.ppc with
+    | .begin => ({ s.1 with ppc := .atInit }, s.2)
+    | .atInit => ({ s.1 with flag := some false, ppc := .atStart }, s.2)
+    | .atStart =>
+      if s.2 then ({ s.1 with flag := some true, ppc := .live }, false)      -- constructor body: store(true)
+      else ({ s.1 with cpc := .fBegin }, true)                                -- base class starts the thread
+    | .live => if s.1.cpc = .done then ({ s.1 with ppc := .joined }, s.2) else s
+    | .joined => s
+  | 1 =>
+    match s.1.cpc with
+    | .fBegin => ({ s.1 with cpc := .inF }, s.2)
+    | .inF => ({ s.1 with cpc := .fEnd }, s.2)
+    | .fEnd => ({ s.1 with cpc := .storeF }, s.2)
+    | .storeF => ({ s.1 with flag := some false, cpc := .done }, s.2)
+    | _ => s
+  | t + 2 =>
+    if t < nobs ∧ s.1.isLive = true then
+      ({ s.1 with samples := s.1.samples ++ [⟨t + 2, s.1.win, s.1.ppc == .joined, s.1.flag⟩] }, s.2)
+    else s
+
+def mrunCreator (nobs : Nat) (sched : List Nat) : MState × Bool :=
+  sched.foldl (mstepCreator nobs) (MState.init, false)
+
 end CelmaVerif.Concurrency
